@@ -29,6 +29,9 @@ type c05Scenario struct {
 	Delays []int       `json:"delays_us"` // cyclic foreground handler delays (burst mode)
 	NFG    int         `json:"nfg"`
 	NBG    int         `json:"nbg"`
+	// burst mode: close the connection and reconnect (which resets the tracker) from another
+	// goroutine after this many microseconds, while handlers are still working through the burst
+	ReconnectAfterUS int `json:"reconnect_after_us"`
 }
 
 var c05Verbs = []string{"JOIN", "PART", "KICK", "QUIT", "NICK", "MODE", "TOPIC", "353", "352", "324", "332", "366", "315", "329", "333"}
@@ -160,6 +163,11 @@ func runC05(sc *c05Scenario) (nontrivial bool, v *Violation) {
 					} else {
 						runtime.Gosched()
 					}
+					// still nothing later may be reflected when a foreground handler is about to return
+					s2 := snapTracker(c.StateTracker(), nicks, chans)
+					mu.Lock()
+					obs = append(obs, c05Obs{k, bg, h, s2})
+					mu.Unlock()
 				}
 			}
 			if bg {
@@ -179,7 +187,22 @@ func runC05(sc *c05Scenario) (nontrivial bool, v *Violation) {
 			b.WriteString("@n=" + strconv.Itoa(k) + " " + l + "\r\n")
 		}
 		conn.Send(b.String())
-		if !tc.syncIn(stallTimeout()) {
+		if sc.ReconnectAfterUS > 0 {
+			done := make(chan error, 1)
+			go func() {
+				time.Sleep(time.Duration(sc.ReconnectAfterUS) * time.Microsecond)
+				tc.C.Close()
+				done <- tc.C.Connect()
+			}()
+			select {
+			case err := <-done:
+				if err != nil {
+					return false, violationf("C05", "reconnect: %v", err)
+				}
+			case <-time.After(stallTimeout()):
+				return false, violationf("C05", "Close/Connect during the burst did not return")
+			}
+		} else if !tc.syncIn(stallTimeout()) {
 			return false, violationf("C05", "burst: marker never delivered")
 		}
 	} else {
@@ -237,12 +260,15 @@ func TestC05(t *testing.T) {
 	defer finish(t, col)
 	rapid.Check(t, func(t *rapid.T) {
 		sc := &c05Scenario{Net: *genC13(t), Burst: rapid.Bool().Draw(t, "burst"), NFG: rapid.IntRange(1, 3).Draw(t, "nfg"), NBG: rapid.IntRange(0, 2).Draw(t, "nbg")}
+		if sc.Burst && rapid.IntRange(0, 2).Draw(t, "reconnect") == 1 {
+			sc.ReconnectAfterUS = rapid.SampledFrom([]int{1, 50, 300, 1000, 3000}).Draw(t, "reconnect_after_us")
+		}
 		for k := rapid.IntRange(1, 4).Draw(t, "ndelays"); k > 0; k-- {
 			sc.Delays = append(sc.Delays, rapid.SampledFrom([]int{0, 0, 20, 100, 400}).Draw(t, "delay"))
 		}
 		nt, v := runC05(sc)
 		b, _ := json.Marshal(sc)
-		col.Case(string(b), nt, fmt.Sprintf("burst=%v", sc.Burst), fmt.Sprintf("nbg=%d", sc.NBG))
+		col.Case(string(b), nt, fmt.Sprintf("burst=%v", sc.Burst), fmt.Sprintf("nbg=%d", sc.NBG), fmt.Sprintf("reconnect_during_burst=%v", sc.ReconnectAfterUS > 0))
 		if len(sc.Net.Events) <= 10 {
 			col.Sample(sc)
 		}
